@@ -61,6 +61,16 @@ def _rebuild_deque(rows, kind):
 _CALLS = [0]
 
 
+def _event(obj):
+    path = os.environ.get("RV_C08_EVENTS")
+    if path:
+        fd = os.open(path, os.O_WRONLY | os.O_APPEND | os.O_CREAT, 0o644)
+        try:
+            os.write(fd, (json.dumps(dict(obj, pid=os.getpid())) + "\n").encode())
+        finally:
+            os.close(fd)
+
+
 def install_tracing():
     """class-level wrapper around SimulationFixedTimes.pre_computation: the pre-drawn rows are tagged (record only)"""
     from rpylib.process.levyprocess import SimulationFixedTimes
@@ -82,6 +92,7 @@ def install_tracing():
                 tr.uid = f"{call}.{kind}.{i}"
                 tagged.append(tr)
             setattr(self, name, tagged)
+            _event({"kind": "predraw", "rows": kind, "call": call, "n": len(tagged)})
 
     SimulationFixedTimes.pre_computation = pre_computation
     SimulationFixedTimes._rv_traced = True
@@ -104,6 +115,18 @@ def install_tracing():
         return out
 
     Uniform.sample = sample
+    # every normal variate drawn from numpy's global generator (record only): in the jump-time modes nothing is pre-drawn, a normal variate
+    # is consumed by the path that draws it
+    orig_normal = np.random.normal
+
+    def normal(*a, **k):
+        out = orig_normal(*a, **k)
+        vals = np.atleast_1d(np.asarray(out, dtype=float)).reshape(-1)
+        if vals.size <= 4096:
+            _event({"kind": "normal", "vals": [v.hex() for v in vals.tolist()]})
+        return out
+
+    np.random.normal = normal
 
 
 def install_seed_tracing():
@@ -136,6 +159,22 @@ def install_seed_tracing():
 
     np.random.seed = traced_np_seed
     random.seed = traced_py_seed
+    # the state of the global generator saved / put back (a restore is a re-seeding by another name)
+    np_get, np_set = np.random.get_state, np.random.set_state
+
+    def traced_get_state(*a, **k):
+        out = np_get(*a, **k)
+        d = _np_digest()
+        _event({"kind": "state", "op": "get", "before": d, "after": d})
+        return out
+
+    def traced_set_state(state, *a, **k):
+        before = _np_digest()
+        np_set(state, *a, **k)
+        _event({"kind": "state", "op": "set", "before": before, "after": _np_digest()})
+
+    np.random.get_state = traced_get_state
+    np.random.set_state = traced_set_state
     np.random._rv_seed_traced = True
 
 
@@ -187,8 +226,11 @@ class SeedAudit:
         return out
 
 
+_NP_GET_STATE = np.random.get_state      # (the original: np.random.get_state itself is wrapped by install_seed_tracing)
+
+
 def _np_digest():
-    st = np.random.get_state()
+    st = _NP_GET_STATE()
     return hashlib.sha1(st[1].tobytes() + str(st[2:]).encode()).hexdigest()[:16]
 
 
